@@ -74,9 +74,10 @@ PROPS = {
                        'gen_hasref_decok:lemma_C18_dec_sum_difference_total', 'gen_hasref_decok:lemma_C18_dec_ratio_total',
                        'gen_hasref_decok:lemma_C18_dec_fit_total', 'gen_hasref_decok:lemma_C18_dec_derived_product_natural_total',
                        'gen_hasref_decok:lemma_C18_dec_derived_quotient_natural_total', 'gen_hasref_decok:lemma_C18_dec_derived_product_fitted_total',
-                       'gen_hasref_decok:lemma_C18_dec_derived_quotient_fitted_total'],
+                       'gen_hasref_decok:lemma_C18_dec_derived_quotient_fitted_total',
+                       'gen_hasref_decok:impl Mul<PQ> for Rate::mul', 'gen_hasref_decok:lemma_C18_dec_rate_application_total'],
             'assumptions': ['A-fpdec-range (decimal half, contracts/lemmas_c18_dec.vrs ax_fpdec_*): an fpdec operation whose operands and exact result are at most 1e20 in absolute value, divisor non-zero, does not panic - read off fpdec 0.11 (i128 coefficient, at most 18 fractional digits), not verified',
-                            'decimal half: exec-level (every operation performed is within the stated precondition) for the generic HasRefUnit methods (equiv_amount, convert, eq, partial_cmp, add, sub, div, _fit) and LinearScaledUnit::ratio; for the generated derived operators only the operations of their Layer-A normal form are examined (spec level: natural-unit branch proved, fitted-unit branch refuted - findings F4, F5); the rate operators are decided for the f64 configuration only']},
+                            'decimal half: exec-level (every operation performed is within the stated precondition) for the generic HasRefUnit methods (equiv_amount, convert, eq, partial_cmp, add, sub, div, _fit) and LinearScaledUnit::ratio; for the generated derived operators only the operations of their Layer-A normal form are examined (spec level: natural-unit branch proved, fitted-unit branch refuted - findings F4, F5); rate application (decimal half): `Mul<PQ> for Rate` is verified exec-level under rate_mul_ok (the like division with the own precondition of the operand type, then / per_unit_multiple, then * term_amount, nothing else) and lemma_C18_dec_rate_application_total derives rate_mul_ok from the range conditions under the hypothesis like_div_is_hasref (the `/` of the operand type is HasRefUnit::div with precondition div_ok); the generated forwarding operators q * rate and q / rate are proved per type to equal that normal form (of the rate resp. its reciprocal) but their decimal preconditions are not instantiated per type']},
     'C13': {'level': 'proof', 'quick': ['gen_quantity', 'lemmas_m1_f64'] + TYPES_Q + ['kani_q_f64:crt', 'kani_astro_f64:crt', 'kani_fix_f64:crt'] + ['kani_q_f64:reg'], 'thorough': TYPES_FIX,
             'expect': ['gen_quantity:impl Rate::new', 'gen_quantity:impl Rate::from_qty_vals', 'gen_quantity:impl Rate::term_amount',
                        'gen_quantity:impl Rate::term_unit', 'gen_quantity:impl Rate::per_unit_multiple', 'gen_quantity:impl Rate::per_unit',
